@@ -598,6 +598,11 @@ func (u *URI) updateBytes(newURI, buf []byte) []byte {
 	}
 
 	n := bytes.Index(newURI, bytestr.StrSlashSlash)
+	if n > 0 && (newURI[n-1] != ':' || bytes.IndexAny(newURI[:n], "/?#") >= 0) {
+		// "//" begins an authority only at the start of the reference or right after its
+		// scheme; further on (in a path, a query, a fragment) it is data
+		n = -1
+	}
 	if n >= 0 {
 		// absolute uri
 		var b [32]byte
@@ -606,7 +611,7 @@ func (u *URI) updateBytes(newURI, buf []byte) []byte {
 			schemeOriginal = append([]byte(nil), u.scheme...)
 		}
 		if n == 0 {
-			newURI = bytes.Join([][]byte{u.scheme, bytestr.StrColon, newURI}, nil)
+			newURI = bytes.Join([][]byte{u.Scheme(), bytestr.StrColon, newURI}, nil)
 		}
 		u.Parse(nil, newURI)
 		if len(schemeOriginal) > 0 && len(u.scheme) == 0 {
